@@ -13,13 +13,13 @@ package stats
 //@ func (*counter).incr
 //@   property C17
 //@   mode bv
-//@   modifies c.count
+//@   modifies atomic(c.count)
 //@   ensures [effect] adds(c.count) == old(adds(c.count)) + step && stores(c.count) == old(stores(c.count)) && atomicops(c.count) == old(atomicops(c.count)) + 1 // C17: the reported totals equal the number of events that happened
 
 //@ func (*counter).decr
 //@   property C17
 //@   mode bv
-//@   modifies c.count
+//@   modifies atomic(c.count)
 //@   ensures [effect] adds(c.count) == old(adds(c.count)) - step && stores(c.count) == old(stores(c.count)) && atomicops(c.count) == old(atomicops(c.count)) + 1 // C17: worker gauges equal the number of live workers
 
 //@ func (*counter).get
@@ -59,7 +59,7 @@ package stats
 //@ func (*mean).add
 //@   property C17
 //@   mode bv
-//@   modifies m.count, m.sum
+//@   modifies atomic(m.count), atomic(m.sum)
 //@   ensures [effect] adds(m.count) == old(adds(m.count)) + 1 && adds(m.sum) == old(adds(m.sum)) + value && stores(m.count) == old(stores(m.count)) && stores(m.sum) == old(stores(m.sum)) // C17: means equal sum over count
 
 //@ func (*mean).get
@@ -80,6 +80,7 @@ package stats
 //@   property C17
 //@   mode bv
 //@   attr guarded rb rb.Mutex
+//@   modifies mapof(rb.data), atomic(*)
 //@   ensures [present] has(rb.data, key)
 //@   ensures [effect] forall(p, *rate, p == rb.data[key] ==> adds(p.total) == old(adds(p.total)) + step && stores(p.total) == old(stores(p.total))) // C17: per-status-code counts equal the number of events that happened
 //@   ensures [kept] old(has(rb.data, key)) ==> rb.data[key] == old(rb.data[key])
@@ -92,3 +93,63 @@ package stats
 //@   attr guarded rb rb.Mutex
 //@   ensures [unchanged] forall(k, string, has(rb.data, k) == old(has(rb.data, k)) && rb.data[k] == old(rb.data[k]))
 //@   ensures [value] (!has(rb.data, key) ==> result == 0) && (has(rb.data, key) ==> nloads() == 1 && result == loaded(1))
+
+// Exported wrappers: each event function is exactly one unit of atomic effect on its metric
+// of the global stats object (the Prometheus mirror is outside the verified state).
+//@ func URLsCrawledIncr
+//@   property C17
+//@   mode bv
+//@   requires globalStats != nil && globalStats.URLsCrawled != nil
+//@   ensures [effect] adds(globalStats.URLsCrawled.total) == old(adds(globalStats.URLsCrawled.total)) + 1 && stores(globalStats.URLsCrawled.total) == old(stores(globalStats.URLsCrawled.total)) // C17: URLs crawled
+//@ func SeedsFinishedIncr
+//@   property C17
+//@   mode bv
+//@   requires globalStats != nil && globalStats.SeedsFinished != nil
+//@   ensures [effect] adds(globalStats.SeedsFinished.total) == old(adds(globalStats.SeedsFinished.total)) + 1 && stores(globalStats.SeedsFinished.total) == old(stores(globalStats.SeedsFinished.total)) // C17: seeds finished
+//@ func HTTPReturnCodesIncr
+//@   property C17
+//@   mode bv
+//@   requires globalStats != nil && globalStats.HTTPReturnCodes != nil
+//@   ensures [effect] has(globalStats.HTTPReturnCodes.data, key) && forall(p, *rate, p == globalStats.HTTPReturnCodes.data[key] ==> adds(p.total) == old(adds(p.total)) + 1 && stores(p.total) == old(stores(p.total))) // C17: per-status-code counts
+//@   ensures [others] forall(k, string, k != key ==> has(globalStats.HTTPReturnCodes.data, k) == old(has(globalStats.HTTPReturnCodes.data, k)) && globalStats.HTTPReturnCodes.data[k] == old(globalStats.HTTPReturnCodes.data[k]))
+//@ func PreprocessorRoutinesIncr
+//@   property C17
+//@   mode bv
+//@   requires globalStats != nil && globalStats.PreprocessorRoutines != nil
+//@   modifies atomic(globalStats.PreprocessorRoutines.count)
+//@   ensures [effect] adds(globalStats.PreprocessorRoutines.count) == old(adds(globalStats.PreprocessorRoutines.count)) + 1 && stores(globalStats.PreprocessorRoutines.count) == old(stores(globalStats.PreprocessorRoutines.count))
+//@ func PreprocessorRoutinesDecr
+//@   property C17
+//@   mode bv
+//@   requires globalStats != nil && globalStats.PreprocessorRoutines != nil
+//@   modifies atomic(globalStats.PreprocessorRoutines.count)
+//@   ensures [effect] adds(globalStats.PreprocessorRoutines.count) == old(adds(globalStats.PreprocessorRoutines.count)) - 1 && stores(globalStats.PreprocessorRoutines.count) == old(stores(globalStats.PreprocessorRoutines.count))
+//@ func ArchiverRoutinesIncr
+//@   property C17
+//@   mode bv
+//@   requires globalStats != nil && globalStats.ArchiverRoutines != nil
+//@   modifies atomic(globalStats.ArchiverRoutines.count)
+//@   ensures [effect] adds(globalStats.ArchiverRoutines.count) == old(adds(globalStats.ArchiverRoutines.count)) + 1 && stores(globalStats.ArchiverRoutines.count) == old(stores(globalStats.ArchiverRoutines.count))
+//@ func ArchiverRoutinesDecr
+//@   property C17
+//@   mode bv
+//@   requires globalStats != nil && globalStats.ArchiverRoutines != nil
+//@   modifies atomic(globalStats.ArchiverRoutines.count)
+//@   ensures [effect] adds(globalStats.ArchiverRoutines.count) == old(adds(globalStats.ArchiverRoutines.count)) - 1 && stores(globalStats.ArchiverRoutines.count) == old(stores(globalStats.ArchiverRoutines.count))
+//@ func PostprocessorRoutinesIncr
+//@   property C17
+//@   mode bv
+//@   requires globalStats != nil && globalStats.PostprocessorRoutines != nil
+//@   modifies atomic(globalStats.PostprocessorRoutines.count)
+//@   ensures [effect] adds(globalStats.PostprocessorRoutines.count) == old(adds(globalStats.PostprocessorRoutines.count)) + 1 && stores(globalStats.PostprocessorRoutines.count) == old(stores(globalStats.PostprocessorRoutines.count))
+//@ func PostprocessorRoutinesDecr
+//@   property C17
+//@   mode bv
+//@   requires globalStats != nil && globalStats.PostprocessorRoutines != nil
+//@   modifies atomic(globalStats.PostprocessorRoutines.count)
+//@   ensures [effect] adds(globalStats.PostprocessorRoutines.count) == old(adds(globalStats.PostprocessorRoutines.count)) - 1 && stores(globalStats.PostprocessorRoutines.count) == old(stores(globalStats.PostprocessorRoutines.count))
+//@ func MeanHTTPRespTimeAdd
+//@   property C17
+//@   mode bv
+//@   requires globalStats != nil && globalStats.MeanHTTPResponseTime != nil
+//@   ensures [effect] adds(globalStats.MeanHTTPResponseTime.count) == old(adds(globalStats.MeanHTTPResponseTime.count)) + 1 && stores(globalStats.MeanHTTPResponseTime.count) == old(stores(globalStats.MeanHTTPResponseTime.count)) && stores(globalStats.MeanHTTPResponseTime.sum) == old(stores(globalStats.MeanHTTPResponseTime.sum))
